@@ -195,7 +195,7 @@ func c07random(rng *core.Rng, pfx string, maxLen int) []xMsg {
 			h = append(h, xMsg{K: "sync"})
 		}
 	}
-	return h
+	return xLongNames(rng, h)
 }
 
 func (ch c07) Run(c *core.Ctx) {
